@@ -296,5 +296,28 @@ PROPS["C16"] = {
     "assumptions": [],
 }
 
+PROPS["C13"] = {
+    "package": "c13", "exe": "m_c13",
+    "rule": "key tables of 1..4 keys (ed25519 hex, rsa PEM, ecdsa PEM, ecdsa with hex-encoded point, the old key type "
+            "'ecdsa-sha2-nistp256'; unknown extra members in the key and in keyval) inside a root document and inside a "
+            "delegations object; per table: unaltered, one identifier with a flipped hex digit (first / middle / last), "
+            "truncated by a byte / by a nibble, extended, upper-cased, mixed case, not hex, swapped with another key's, "
+            "replaced by another key's, the member duplicated, the same key listed under both hex cases of its identifier. "
+            "Key ids are recomputed by the harness as SHA-256 of the canonical JSON of the key as written. Non-trivial: any "
+            "alteration, or extra members present.",
+    "explanation": "Theorems (Tough/Props/C13.lean): a key table parses iff every identifier hex-decodes to the digest of its "
+                   "key and no decoded identifier repeats (any table size); in a parsed table the key found under an "
+                   "identifier hashes to it; hex decode(encode b) = b; the hex case is irrelevant. Correspondence: "
+                   "serde_json::from_str of Signed<Root> / Targets with the table; on success every stored key's key_id() "
+                   "equals its identifier and is stable across re-serialise / re-parse.",
+    "level_text": "Kernel-checked iff for the key-table fold (all tables), differential runs over all key encodings and "
+                  "identifier alterations for root and delegation tables.",
+    "level_note": "Trusted: Lean kernel, standard axioms; SHA-256 and the canonical form of a key are taken from the harness "
+                  "(C11 for the canonical form); SPKI/PEM decoding of keys is not modelled (stability across re-serialise is "
+                  "observed only).",
+    "trusted": ["modelled, not verified: serde map visiting order, hex crate, PEM/SPKI decoding (spki.rs)"],
+    "assumptions": [],
+}
+
 _PENDING = "check under construction in this session (DESIGN.md §10 order of work); not claimed until it runs"
 NOT_APPLICABLE = {f"C{i:02d}": _PENDING for i in range(1, 21)}
